@@ -4,6 +4,7 @@ import random
 
 import cluster
 import common
+import datapath
 from props import c04
 
 PROP = "C14"
@@ -52,11 +53,15 @@ def run(tier, seed):
     cases = c04.model_part(tier, seed, wd, res) + cases_for(tier, seed)
     if tier != "quick":
         cases += [dict(c, id="q" + c["id"]) for c in c04.cases_for(tier, seed + 7)[:2000]]
+    for c in cases:
+        c["trace_state"] = True
+        c["trace_data"] = True
     raws = common.run_cases_parallel("cluster", cases, wd, procs=12, timeout=3000,
                                      env={"NUN_ELECTION_TIMEOUT": "10"})
     norm_path = os.path.join(wd, "norm.ndjson")
     cluster.normalize(raws, norm_path)
     res.coverage.update(c04.schedule_stats(raws))
+    res.coverage.update(datapath.check(raws, {c["id"]: c for c in cases}, wd))
     out = common.validate_into(res, norm_path, "Trace_Cluster.tla", "Trace_Cluster.cfg", CHECKS, devs,
                                "/dev/null", wd, {c["id"]: c for c in cases})
     res.coverage.update({
